@@ -532,7 +532,10 @@ pub fn parse_duration(
     fragment: &yaml::Yaml,
 ) -> Result<Option<std::time::Duration>, Error> {
     if let yaml::Yaml::Integer(i) = fragment {
-        Ok(Some(std::time::Duration::from_secs(*i as u64)))
+        let secs = u64::try_from(*i).map_err(|_| {
+            Error::InvalidConfig(format!("{} cannot be a negative duration ({})", name, i))
+        })?;
+        Ok(Some(std::time::Duration::from_secs(secs)))
     } else {
         parse_string(name, fragment).and_then(str_duration)
     }
